@@ -44,6 +44,24 @@ fn min_separation(data: &[Vec<f64>]) -> f64 {
     }
     best
 }
+/// predicate of known finding bbd-adjacent-float-split: two values 1 ulp apart in some coordinate at magnitude >= 9e5
+fn has_adjacent_floats(data: &[Vec<f64>]) -> bool {
+    for i in 0..data.len() {
+        for j in 0..data.len() {
+            for q in 0..data[i].len() {
+                let (a, b) = (data[i][q], data[j][q]);
+                if a.abs() >= 9e5 && a.is_finite() && b.is_finite() && (a > 0.0) == (b > 0.0) && a.to_bits().wrapping_sub(b.to_bits()) == 1 {
+                    return true;
+                }
+            }
+        }
+    }
+    false
+}
+/// predicate of known finding bbd-leaf-threshold-absolute: distinct rows within 1e-10 of each other in every coordinate
+fn has_rows_within_leaf_threshold(data: &[Vec<f64>]) -> bool {
+    min_separation(data) < 1e-10
+}
 fn max_abs(rows: &[Vec<f64>]) -> f64 {
     rows.iter().flatten().fold(0.0f64, |m, v| m.max(v.abs()))
 }
@@ -928,6 +946,66 @@ fn main() {
         out.eval(hash_of(&(k, mi)), false);
         if !matches!(run_fit(&iris, k, mi), Ok(None)) {
             out.fail("fit_parameter_validation", "fit accepted k < 2 or max_iter = 0", json!({"entry": "fit", "data": iris, "k": k, "max_iter": mi, "queries": [], "repeat": 1}));
+        }
+    }
+    // ---- known findings (KNOWN_FINDINGS.txt), one small dedicated family each ----
+    // bbd-adjacent-float-split: only the variant that panics at the root (begin = 0); the variant with the
+    // degenerate node deeper in the tree recurses without bound and aborts the process, so it is never run here.
+    for (bi, b) in [1.0e8f64, 1048576.0, 4.0e6, 3.0e9].iter().enumerate() {
+        for d in 1..=2usize {
+            let nb = f64::from_bits(b.to_bits() + 1);
+            let mut r0 = vec![*b];
+            let mut r1 = vec![nb];
+            if d == 2 {
+                r0.push(bi as f64);
+                r1.push(bi as f64);
+            }
+            let data = vec![r0, r1];
+            out.count("search:known-family:adjacent-float-split");
+            out.eval(hash_f64s(&data.iter().flatten().cloned().collect::<Vec<f64>>()), true);
+            let input = json!({"entry": "fit", "data": data, "k": 2, "max_iter": 10, "queries": [], "repeat": 3});
+            match fit_violation(&data, 2, 10, &[]) {
+                None => {}
+                Some((clause, what)) => {
+                    if clause == "fit_panic" && has_adjacent_floats(&data) {
+                        out.known("bbd-adjacent-float-split", &format!("{} on data {:?}", what, data));
+                        // the model fails on the same input (out of fuel / index underflow)
+                        out.corr("build_node", format!("corr_build_fails {}", coq_rows_f64(&data)), json!({"entry": "tree", "data": data}));
+                    } else {
+                        out.fail(&clause, &what, input);
+                    }
+                }
+            }
+        }
+    }
+    // bbd-leaf-threshold-absolute: ordinary data scaled by 1e-12 (all rows within 1e-10 of each other);
+    // ONLY the centroid-is-mean clause is suppressed.
+    for _ in 0..(if a.thorough { 40 } else { 8 }) {
+        let fam = pick_family(&mut rng);
+        let k = rng.usize_in(2, 4);
+        let n = rng.usize_in(k.max(3), 20);
+        let d = rng.usize_in(1, 3);
+        let base = match gen_fit_data(&mut rng, fam, n, d, k) {
+            Some(x) => x,
+            None => continue,
+        };
+        let m = max_abs(&base).max(1.0);
+        let data: Vec<Vec<f64>> = base.iter().map(|r| r.iter().map(|v| v / m * 1e-12).collect()).collect();
+        if distinct_rows(&data) < k {
+            continue;
+        }
+        out.count("search:known-family:leaf-threshold");
+        out.eval(hash_f64s(&data.iter().flatten().cloned().collect::<Vec<f64>>()), true);
+        let input = json!({"entry": "fit", "data": data, "k": k, "max_iter": 10, "queries": [], "repeat": 20});
+        match fit_violation(&data, k, 10, &[]) {
+            None => {}
+            Some((clause, what)) => {
+                if clause == "centroid_is_mean" && has_rows_within_leaf_threshold(&data) {
+                    out.known("bbd-leaf-threshold-absolute", &format!("{} (rows within 1e-10 of each other are merged into one leaf)", what));
+                } else {
+                    out.fail(&clause, &what, input);
+                }
+            }
         }
     }
     out.finish(&a.out);
